@@ -310,7 +310,15 @@ def link_callers(ctx, rule="R10.7"):
                 sites += 1
                 arg = n.args[0] if n.args else next((k.value for k in n.keywords if k.arg == "link_exponents"), None)
                 ex = expand(fi.node, arg) if arg is not None else None
-                may_none = ex is None or any(isinstance(x, ast.Constant) and x.value is None for x in ast.walk(ex))
+                cands = [ex]
+                if isinstance(ex, ast.Name) and ex.id not in {a.arg for a in fi.node.args.args + fi.node.args.kwonlyargs}:
+                    # several definitions: every one that reaches the call
+                    from ..cfg import parent_map
+                    from ..dataflow import reaching_values, stmt_of
+                    vals = reaching_values(fi.node, ex.id, stmt_of(n, parent_map(fi.node)))
+                    cands = [expand(fi.node, v) if v is not None else None for v in vals] or [ex]
+                    ex = next((c for c in cands if c is not None and any(isinstance(x, ast.Constant) and x.value is None for x in ast.walk(c))), ex)
+                may_none = any(c is None or any(isinstance(x, ast.Constant) and x.value is None for x in ast.walk(c)) for c in cands)
                 ctx.ob(rule, f"{fi.qual} L{n.lineno}: {norm(n)} passes a vector potential, never None", not (may_none and unsafe),
                        detail={"argument": ast.unparse(ex) if ex is not None else None, "none_then_array": unsafe[:2]},
                        where=fi.fq, construct=f"set_link_exponents argument may be None in {fi.qual}", loc=loc(fi, n),
